@@ -53,13 +53,18 @@ template<class S> inline void merge_lvalue(S& s, S& o) {
   if (++n % 2) s.merge(o); else s.merge(const_cast<const S&>(o));
 }
 
+// copy construction: a family may provide ccopy(const S&) -> S to route some copies through another constructor that must also
+// yield an observationally equal object (the quantile families alternate with the type-converting constructors)
+template<class F> auto ccopy_of(const typename F::S& s, int) -> decltype(F::ccopy(s)) { return F::ccopy(s); }
+template<class F> typename F::S ccopy_of(const typename F::S& s, long) { return typename F::S(s); }
+
 // F: struct with  S (sketch type), make(inst, w) -> S, update(S&, w), merge(S&, S&, bool), query(S&, w),
 //    image(const S&) -> std::string, deser(const std::string&, inst) -> S, trim(S&), reset(S&)
 template<class F> struct ObjT : AnyObj {
   typename F::S s;
   int inst;
   ObjT(int inst_, const W& w) : s(F::make(inst_, w)), inst(inst_) {}
-  ObjT(const ObjT& o) : s(o.s), inst(o.inst) {}
+  ObjT(const ObjT& o) : s(ccopy_of<F>(o.s, 0)), inst(o.inst) {}
   ObjT(ObjT&& o) : s(std::move(o.s)), inst(o.inst) {}
   ObjT(FromImage, const std::string& img, int inst_) : s(F::deser(img, inst_)), inst(inst_) {}
   static const ObjT& same(const AnyObj& o) {
